@@ -16,7 +16,7 @@ RULE = ("labelled digraphs with at least one cycle (self-loops, 2-cycles, longer
         "components) on 1-4 commands enumerated (quick: sampled), 5-8 random; edge realisation in {direct, list, nested list, mixed}; "
         "probe library and real EEMS commands; distinct by (n, canonical cycle structure: self-loop / 2-cycle / longer, has-tail, "
         "has-acyclic-part, realisation, library)")
-REQUIRED_COUNTERS = ["cyclic_programs_run", "recursive_model_errors_seen", "run_depth_observations", "api_built_programs", "late_cycle_closures"]
+REQUIRED_COUNTERS = ["cyclic_programs_run", "recursive_model_errors_seen", "run_depth_observations", "api_built_programs", "late_cycle_closures", "second_runs_of_rejected_programs", "eems2_self_references"]
 EXHAUSTIVE = {"thorough": False}
 EXHAUSTIVE_NOTE = "thorough tier enumerates every cyclic labelled digraph on 1-4 commands (64 839 edge sets) in one realisation each plus random realisations"
 ASSUMPTIONS = ["whether commands outside the cycle executed before the rejection is not judged", "lineno of the error: any value"]
@@ -78,6 +78,8 @@ def cases(ctx):
                        "lib": "eems" if idx % 5 == 0 else "probe", "order": rng.randrange(10 ** 6), "multiline": idx % 3 == 0, "dupe": idx % 4 == 1,
                        "sorted_order": idx % 3 == 0 and idx % 2 == 0, "api": idx % 5 == 2, "noout": idx % 7 == 3, "late": idx % 11 == 4}
             idx += 1
+    for i in range(ctx.n(2, 10)):
+        yield {"kind": "v2self", "variant": i * ctx.nshards + ctx.shard}
     for i in range(ctx.n(300, 20000)):
         n = rng.randint(5, 8)
         edges = set()
@@ -91,6 +93,48 @@ def cases(ctx):
         yield {"n": n, "edges": [list(e) for e in sorted(edges)], "real": rng.choice(["direct", "list", "nested", "mixed"]),
                "lib": rng.choice(["probe", "probe", "eems"]), "order": rng.randrange(10 ** 6), "multiline": rng.random() < 0.4, "dupe": rng.random() < 0.3,
                "sorted_order": rng.random() < 0.3, "api": rng.random() < 0.25, "noout": rng.random() < 0.2, "late": rng.random() < 0.15}
+
+
+V2_SELF = [
+    'READ(InFileName = "in.csv", InFieldName = X0)\nNOT(InFieldName = NotX)',
+    'READ(InFileName = "in.csv", InFieldName = X0)\nCVTTOFUZZY(InFieldName = X0, NewFieldName = F)\nOR(InFieldNames = [F, G], NewFieldName = G)',
+    'READ(InFileName = "in.csv", InFieldName = X0)\nCOPYFIELD(InFieldName = C)',
+    'READ(InFileName = "in.csv", InFieldName = X0)\nSUM(InFieldNames = [X0, S], NewFieldName = S)\nCOPYFIELD(InFieldName = S, NewFieldName = T)',
+    'READ(InFileName = "in.csv", InFieldName = X0)\nA = Copy(InFieldName = B)\nCOPYFIELD(InFieldName = A, NewFieldName = B)',
+]
+
+
+def run_v2self(ctx, case):
+    """Commands written in EEMS 2.0 form whose (derived) result name is their own input, or that close a cycle with MPilot-form
+    commands: loaded like any other file and rejected by run() with the recursive-model error."""
+    from mpilot.program import Program
+    text = V2_SELF[case["variant"] % len(V2_SELF)]
+    d = ctx.scratch()
+    with open(d + "/in.csv", "w") as f:
+        f.write("X0\n1\n2\n3\n")
+    ctx.count("cyclic_programs_run")
+    ctx.count("eems2_self_references")
+    ctx.feature(("v2self", case["variant"] % len(V2_SELF)))
+    err = None
+    stage = "load"
+    try:
+        prog = Program.from_source(text, working_dir=d)
+        stage = "run"
+        prog.run()
+        stage = "done"
+    except BaseException as e:
+        err = e
+    ctx.count("run_depth_observations")
+    if err is None:
+        ctx.fail("returned-normally:eems2-form", {"text": text})
+    elif type(err).__name__ != "RecursiveModelStructure" or stage != "run":
+        chain, e = [], err
+        while e is not None and len(chain) < 4:
+            chain.append(type(e).__name__)
+            e = getattr(e, "exc", None) or e.__cause__
+        ctx.fail("%s:eems2-form" % ("stack-exhausted" if "RecursionError" in chain else "wrong-error-%s-at-%s" % (chain[0], stage)), {"text": text, "error": str(err)[:200]})
+    else:
+        ctx.count("recursive_model_errors_seen")
 
 
 def _layout(line, multi):
@@ -180,6 +224,8 @@ def _plain(v):
 
 
 def run_case(ctx, case):
+    if case.get("kind") == "v2self":
+        return run_v2self(ctx, case)
     from mpilot.program import Program
     text, libs = build_text(case)
     d = ctx.scratch()
@@ -262,6 +308,26 @@ def run_case(ctx, case):
     name = type(err).__name__
     if name == "RecursiveModelStructure":
         ctx.count("recursive_model_errors_seen")
+        if case["order"] % 3 == 0:
+            # asked again, the same program is rejected again (nothing was "resolved" by the failed run)
+            ctx.count("second_runs_of_rejected_programs")
+            trace.start()
+            err2 = None
+            try:
+                prog.run()
+            except BaseException as e2:
+                err2 = e2
+            finally:
+                trace.stop()
+            if type(err2).__name__ != "RecursiveModelStructure":
+                chain2 = []
+                e2 = err2
+                while e2 is not None and len(chain2) < 4:
+                    chain2.append(type(e2).__name__)
+                    e2 = getattr(e2, "exc", None) or e2.__cause__
+                ctx.fail("second-run-of-a-rejected-program:%s" % ("returned-normally" if err2 is None else "stack-exhausted" if "RecursionError" in chain2 else "wrong-error-" + chain2[0]),
+                         {"text": text, "unfinished": [n for n, c in prog.commands.items() if not c.is_finished][:6]})
+                return
         try:
             str(err)
         except Exception as e:
